@@ -113,6 +113,16 @@ fn synchronize_jobs(
                     return (synchronized_jobs, invalid_multi_job_ids);
                 }
 
+                // NOTE: do not start inserting a multi job which sub-jobs are not in a valid order: a removal of
+                // its activities later invalidates insertions of other jobs made in between
+                if let Some(multi) = job.as_multi().filter(|_| !synchronized_jobs.contains_key(&job)) {
+                    let singles = route_ctx.route().tour.job_activities(&job).filter_map(|a| a.job.clone()).collect::<Vec<_>>();
+                    if singles.len() != multi.jobs.len() || !compare_singles(multi, singles.as_slice()) {
+                        invalid_multi_job_ids.insert(job.clone());
+                        return (synchronized_jobs, invalid_multi_job_ids);
+                    }
+                }
+
                 let eval_ctx = EvaluationContext {
                     goal,
                     job: &job,
